@@ -53,7 +53,7 @@ type tPlan struct {
 
 func tPlans() []tPlan {
 	if core.Thorough() {
-		return []tPlan{{"TA", "full", 2}, {"TA", "small", 3}, {"TA'", "core", 2}, {"TA'", "full", 1}, {"TB", "full", 2}, {"TB'", "core", 2}, {"TB'", "full", 1}}
+		return []tPlan{{"TA", "full", 2}, {"TA", "small", 3}, {"TA'", "full", 2}, {"TB", "full", 2}, {"TB", "small", 3}, {"TB'", "core", 2}, {"TB'", "full", 1}}
 	}
 	return []tPlan{{"TA", "core", 2}, {"TA", "full", 1}, {"TA'", "core", 1}, {"TB", "core", 2}, {"TB", "full", 1}, {"TB'", "core", 1}}
 }
@@ -273,6 +273,24 @@ func tShrink(v core.Violation) core.Violation {
 			if len(names) > 1 {
 				for k := range names {
 					cands = append(cands, strings.Join(append(append([]string{}, names[:k]...), names[k+1:]...), ","))
+				}
+			}
+			// a box: without one of its sub-transactions; its sub-transactions as plain transactions
+			for k, n := range names {
+				if !strings.HasPrefix(n, "B:") {
+					continue
+				}
+				subs := strings.Split(n[2:], ";")
+				with := func(repl string) string {
+					c := append([]string{}, names...)
+					c[k] = repl
+					return strings.Join(c, ",")
+				}
+				cands = append(cands, with(strings.Join(subs, ",")))
+				if len(subs) > 1 {
+					for j := range subs {
+						cands = append(cands, with("B:"+strings.Join(append(append([]string{}, subs[:j]...), subs[j+1:]...), ";")))
+					}
 				}
 			}
 			for _, c := range cands {
